@@ -182,7 +182,34 @@ def make_cases(seed, tier, ndefs=None, ntypes=None, nvals=None):
             twins.append(tw)
     for tw in twins:
         types.append(tw.t)
-    cases += twins
+    # wrongly declared zero-copy types (C17): fixed definitions and cases
+    ldefs, lcases = liar_defs_and_cases()
+    for d in ldefs:
+        U.add(d)
+    for i, (t, vals) in enumerate(lcases):
+        types.append(t)
+        for j, v in enumerate(vals):
+            lc = Case("L%dv%d" % (i, j), "tL%d" % i, t, v)
+            lc.cross, lc.liar = [], True
+            twins.append(lc)
+    # scaled twins (C03): the same skeleton with every borrowed sequence 3 and 8 times longer
+    scaled = []
+    nsc = 0
+    for c in cases:
+        if ser_only(c.t) or not c.cid.endswith("v0"):
+            continue
+        for k in (3, 8):
+            sv = scale_borrowed(U, c.t, c.v, k)
+            if sv is None or approx_len(U, c.t, sv) > 60000:
+                continue
+            sc = Case(c.cid + "k%d" % k, c.tid, c.t, sv)
+            sc.scaled_of = c.cid
+            sc.cross = []
+            scaled.append(sc)
+        nsc += 1
+        if tier == "quick" and len(scaled) >= 160:
+            break
+    cases += twins + scaled
     return U, types, cases
 
 
@@ -239,6 +266,45 @@ def known_pair_defs():
     return [a, b, e, s_], pairs
 
 
+def liar_defs_and_cases():
+    """C17, second layer: a hand-written type that declares CopyType = Zero but reports
+    IS_ZERO_COPY = false, on every path guarded by the run-time check: alone, as the item of
+    sequences, as a field of derived zero-copy structs / enum variants (tuple-like and struct-like),
+    inside deep-copy structures after other fields."""
+    u64, u16 = ("prim", "u64"), ("prim", "u16")
+    n = lambda x: ("n", x)
+    h = Def("Handle0", "struct", "zero", [], [], [], [("data", u64), ("len", u64)])
+    h.liar = True
+    H = ("adt", "Handle0", ())
+    hv = ("s", [n(0), n(0)])
+    zs = Def("BadStruct", "struct", "zero", ["C"], [], [], [("id", u64), ("handle", H)])
+    zt = Def("BadTupleStruct", "struct", "zero", ["C"], [], [], [("0", u16), ("1", H)], style="tuple")
+    en = Def("BadNamed", "enum", "zero", ["C"], [], [], [("Plain", "tuple", [("0", u64)]), ("Held", "named", [("id", u64), ("handle", H)])])
+    et = Def("BadTuple", "enum", "zero", ["C"], [], [], [("Plain", "tuple", [("0", u64)]), ("Held", "tuple", [("0", H)])])
+    et2 = Def("BadTupleFirst", "enum", "zero", ["C"], [], [], [("Held", "tuple", [("0", u16), ("1", H)]), ("Unit", "unit", [])])
+    dp = Def("DeepHolder", "struct", "deep", [], [], [], [("x", u16), ("h", H), ("y", ("string",))])
+    dg = Def("DeepGen", "struct", "none", [], ["A"], [], [("n", ("vec", u16)), ("a", ("param", "A"))])
+    defs = [h, zs, zt, en, et, et2, dp, dg]
+    cases = [
+        (H, [hv]),
+        (("vec", H), [("s", [hv, hv]), ("s", [])]),
+        (("bslice", H), [("s", [hv])]),
+        (("sref", H), [("s", [hv, hv])]),
+        (("arr", 2, H), [("s", [hv, hv])]),
+        (("opt", H), [("t", 1, [hv])]),
+        (("adt", "BadStruct", ()), [("s", [n(7), hv])]),
+        (("adt", "BadTupleStruct", ()), [("s", [n(7), hv])]),
+        (("adt", "BadNamed", ()), [("t", 1, [n(7), hv]), ("t", 0, [n(7)])]),
+        (("adt", "BadTuple", ()), [("t", 1, [hv]), ("t", 0, [n(7)])]),
+        (("adt", "BadTupleFirst", ()), [("t", 0, [n(7), hv]), ("t", 1, [])]),
+        (("vec", ("adt", "BadTuple", ())), [("s", [("t", 1, [hv])])]),
+        (("adt", "DeepHolder", ()), [("s", [n(258), hv, ("b", b"xy")])]),
+        (("adt", "DeepGen", (H,)), [("s", [("s", [n(1), n(2)]), hv])]),
+        (("adt", "DeepGen", (("vec", ("adt", "BadNamed", ())),)), [("s", [("s", [n(1)]), ("s", [("t", 1, [n(7), hv])])])]),
+    ]
+    return defs, cases
+
+
 def corpus_cases():
     u8, u32, u64 = ("prim", "u8"), ("prim", "u32"), ("prim", "u64")
     n = lambda x: ("n", x)
@@ -289,7 +355,7 @@ def write_gen_workspace(U, cases, gdir, shards=GEN_SHARDS):
         os.makedirs(os.path.join(cdir, "src"), exist_ok=True)
         members.append("s%d" % k)
         with open(os.path.join(cdir, "Cargo.toml"), "w") as f:
-            f.write('[package]\nname = "gen_s%d"\nversion = "0.1.0"\nedition = "2021"\n\n[dependencies]\n'
+            f.write('[package]\nname = "evc_s%d"\nversion = "0.1.0"\nedition = "2021"\n\n[dependencies]\n'
                     'epserde = { path = "%s/epserde" }\nevharness = { path = "%s" }\n' % (k, REPO, HARNESS))
         body = [PRELUDE, defs_src, ""]
         arms = []
@@ -303,6 +369,8 @@ def write_gen_workspace(U, cases, gdir, shards=GEN_SHARDS):
                 tu = type_of_tid[tidu]
                 crosses += "\n    cross_case::<%s, %s>(\"%s\", \"%s\", &mk, ops, arena, out);" % (st, rust_ty(U, sertype(U, tu), "'static"), c.cid, tidu)
             crosses += "\n    load_case::<%s, %s>(\"%s\", &mk, ops, out);" % (st, dt, c.cid)
+            if not ser_only(sertype(U, c.t)):
+                crosses += "\n    dty_case::<%s, %s>(\"%s\", ops, out);" % (dt, rust_ty(U, desertype(U, sertype(U, c.t)), "'static"), c.cid)
             body.append("fn case_%s(ops: &[String], arena: &mut Arena, out: &mut String) {\n    %s\n    let mk = || -> %s { %s };\n    run_case::<%s, %s>(\"%s\", &mk, ops, arena, out);%s\n}" % (
                 c.cid, "\n    ".join(cx.lets), st, expr, st, dt, c.cid, crosses))
             arms.append('        "%s" => case_%s(ops, arena, out),' % (c.cid, c.cid))
@@ -359,11 +427,17 @@ def shards_of_cases(cases, n):
 def build_gen(gdir, tdir):
     env = dict(ENV)
     env["CARGO_TARGET_DIR"] = tdir
+    # the uplifted binaries are re-linked on every build: a binary of the same name left by another
+    # workspace would otherwise be taken for this one's (cargo only checks its own fingerprints)
+    import glob
+    for f in glob.glob(os.path.join(tdir, "debug", "gen_s*")) + glob.glob(os.path.join(tdir, "debug", "evc_s*")):
+        if os.path.isfile(f):
+            os.remove(f)
     rc, out, err = run(["cargo", "build", "--offline", "--quiet", "--workspace"], cwd=gdir, timeout=3000, env=env)
     return rc == 0, out + err
 
 
-def run_impl(parts, ops_of, gdir, tdir, tag):
+def run_impl(parts, ops_of, gdir, tdir, tag, binprefix="evc_s"):
     """ops_of: cid -> list of op strings. Returns (obs dict, base address per case, errors).
     A shard that aborts (e.g. allocation failure) is resumed after the case that killed it; that
     case gets the observation (cid, 'crash')."""
@@ -377,7 +451,7 @@ def run_impl(parts, ops_of, gdir, tdir, tag):
         for k, cs in todo.items():
             p = os.path.join(gdir, "%s_ops_%d.txt" % (tag, k))
             write_lines(p, ["%s %s" % (c.cid, " ".join(ops_of(c))) for c in cs])
-            cmds.append([os.path.join(tdir, "debug", "gen_s%d" % k), p])
+            cmds.append([os.path.join(tdir, "debug", "%s%d" % (binprefix, k)), p])
             keys.append(k)
         res = run_parallel(cmds, timeout=3000)
         for k, (rc, out, err) in zip(keys, res):
@@ -679,6 +753,13 @@ def run_campaign(tier):
         if not si and not getattr(x, "twin_of", None) and (tier != "quick" or x.cid.endswith("v0")):
             ops.append("load")
         ops.append("tags:" + ",".join(str(n) for n in c.tagc[x.cid]))
+        if getattr(x, "liar", False):
+            return ["ser", "schema"]
+        if getattr(x, "scaled_of", None):
+            # a scaled twin exists only for the allocation comparison (and the usual round trips)
+            return ["hdr", "ser", "full", "eps:0", "alloc:0"]
+        if not ser_only(sertype(c.U, x.t)):
+            ops += ["alloc:0", "dty"]
         return ops
 
     t1 = time.time()
@@ -703,6 +784,14 @@ def run_campaign(tier):
                 cr.append("cross:%s:%s:%s:%s" % (b, tidu, hu[0], hu[1]))
         if (x.cid, "load") in c.iobs:
             cr.append("load")
+        if getattr(x, "liar", False):
+            return ["tinfo", "ser", "schema"]
+        if getattr(x, "scaled_of", None):
+            return ["tinfo", "ser", "full", "eps:" + b, "alloc:" + b]
+        if (x.cid, "alloc:0") in c.iobs:
+            cr.append("alloc:" + b)
+        if (x.cid, "dty") in c.iobs:
+            cr.append("dty")
         return cr + ["tinfo", "ser", "feed", "full", "eps:" + b, "schema", "wfault:%d" % c.steps[x.cid], "flips:" + b, "place:" + b,
                 "cuts:%s:%d" % (b, c.steps[x.cid]),
                 "tags:%s:%s" % (b, ",".join(str(n) for n in c.tagc[x.cid]))]
@@ -723,6 +812,8 @@ def mkey(c, x, op):
     b = "%x" % c.bases.get(x.cid, 0)
     if op == "eps:0":
         return "eps:" + b
+    if op == "alloc:0":
+        return "alloc:" + b
     if op == "cuts":
         return "cuts:" + b
     if op in ("flips", "place", "tags"):
@@ -742,6 +833,12 @@ def agree(c, x, op):
         return True
     if i is None or m is None:
         return False
+    if op == "dty":
+        # the implementation compares rustc's DeserType with the type rendered from the documentation's rule;
+        # here the model's field-level ε-copy type is compared with the expansion of that same type
+        return m.strip() == dty_sexp(c.U, desertype(c.U, sertype(c.U, x.t)))
+    if op == "alloc:0":
+        return alloc_agree(c, x, m, i)
     if op == "schema":
         # the implementation adds same=..; compare rows and render outcomes
         return m == re.sub(r" same=[yn]$", "", i)
@@ -755,6 +852,51 @@ def agree(c, x, op):
         keep = lambda s: " ".join(p for p in s.split(" ") if p and not p.startswith(("file=", "devfull=", "again=", "sflush=", "smid=")))
         return keep(m) == keep(i)
     return m.strip() == i.strip()
+
+
+def may_zst(U, t, seen=None):
+    """could a sequence of items of a type built from t need no heap block (zero-sized items)?"""
+    k = t[0]
+    if k in ("unit", "ph", "rfull"):
+        return True
+    if k == "arr":
+        return t[1] == 0 or may_zst(U, t[2])
+    if k in ("vec", "bslice", "opt", "bound", "sref", "siter"):
+        return may_zst(U, t[1])
+    if k in ("tup", "range"):
+        return may_zst(U, t[2])
+    if k == "cf":
+        return may_zst(U, t[1]) or may_zst(U, t[2])
+    if k == "adt":
+        d = U.defs[t[1]]
+        b = inst_fields(U, t)
+        if d.kind == "struct":
+            return len(b) == 0 or any(may_zst(U, ft) for (_, _, ft) in b)
+        return len(b) <= 1 or any(may_zst(U, ft) for (_, _, fs) in b for (_, _, ft) in fs)
+    return False
+
+
+def alloc_parts(s):
+    d = dict(p.split("=", 1) for p in (s or "").split(" ") if "=" in p)
+    return d
+
+
+def alloc_agree(c, x, m, i):
+    """allocation requests of the ε-copy call: the model gives the element count of each request,
+    the implementation the byte size of each request"""
+    if i.strip() in ("none", "PANIC") or m.strip().endswith("none"):
+        return (i.strip() in ("none", "PANIC")) == m.strip().endswith("none")
+    dm, di = alloc_parts(m), alloc_parts(i)
+    if dm.get("refs_in_blocks") not in ("y", "na") or dm.get("skel") != "y":
+        return False
+    counts = [int(z, 16) for z in dm.get("counts", "").split(",") if z]
+    counts = [z for z in counts if z]
+    sizes = [int(z, 16) for z in di.get("sizes", "").split(",") if z]
+    if int(di.get("calls", "0"), 16) != len(sizes):
+        return len(counts) >= 256          # log overflow: only the prefix is known
+    if may_zst(c.U, sertype(c.U, x.t)):
+        return len(sizes) <= len(counts)
+    return len(sizes) == len(counts) and all(sz % n == 0 and sz >= n for sz, n in zip(sizes, counts))
 
 
 def type_histogram(c):
